@@ -82,6 +82,12 @@ def make_project(seed, root):
         f2 = fgen.SrcFile(f"tp{seed}b")
         f2.units = [genmodels.gen_program(ctx, []), genmodels.gen_proc(ctx, [], [])]
         files = [f, f2]
+    if seed % 5 in (1, 3):
+        # a module that implements its own separate module procedures (no submodule) - valid Fortran 2008
+        open(os.path.join(src, f"zz_selfimpl{seed}.f90"), "w").write("\n".join([
+            f"module selfimpl{seed}", "!! doc of selfimpl", "implicit none", "interface", "module function sif(x) result(r)", "!! interface doc", "integer, intent(in) :: x", "integer :: r",
+            "end function sif", "module subroutine sis()", "!! interface doc", "end subroutine sis", "end interface", "contains", "module procedure sif", "!! implementation doc", "r = x",
+            "end procedure sif", "module subroutine sis()", "!! implementation doc", "end subroutine sis", f"end module selfimpl{seed}"]) + "\n")
     st = fgen.Style(seed + 2)
     for f in files:
         stmts = fgen.render_file(f, st)
@@ -115,7 +121,10 @@ def run_case(item):
 
 
 def case(seed):
-    base = core.mktemp("vf_c09_")
+    base0 = core.mktemp("vf_c09_")
+    # the project (and so the output directory) sometimes lives in a directory whose name needs URL quoting
+    base = os.path.join(base0, ["plain", "my proj", "pr\u00f6j (v2)", "a#b%20c"][seed % 4]) if seed % 3 == 0 else base0
+    os.makedirs(base, exist_ok=True)
     try:
         shape, opts = make_project(seed, base)
         st, r = core.run_alone(run_case, {"root": base}, timeout=300)
@@ -151,7 +160,7 @@ def case(seed):
                 "nontrivial": len(s["pages"]) >= 3 and len(depths) >= 2, "hash": core.h([shape, ov, sorted(s["pages"])]),
                 "sample": {"seed": seed, "shape": shape, "options": ov, "pages": sorted(s["pages"])[:25], "links_checked": nlinks}}
     finally:
-        shutil.rmtree(base, ignore_errors=True)
+        shutil.rmtree(base0, ignore_errors=True)
 
 
 def main():
